@@ -1,1 +1,797 @@
-//! ref_tex (to be filled)
+//! Builders of conforming texture containers (CTPK, BCH, CGFX, TPL) from a list of textures,
+//! each with a family of layouts: the movable sections in every order, with 0- or 16-byte
+//! gaps, entries inside a section forward or reversed, shared or duplicated name storage.
+//! Field offsets follow DESIGN Appendix A (3dbrew / Ohana3DS / YAGCD descriptions of the
+//! formats, and the anchors named by property C20). mila has no writer for these formats.
+//!
+//! Independence caveat (DESIGN §2.6): the public documentation of BCH/CGFX is thin, so a
+//! misreading shared by these builders and by mila's parsers would go unnoticed.
+
+use crate::sjis;
+use crate::util::permutations;
+
+#[derive(Clone, Debug)]
+pub struct TexSpec {
+    pub name: String,
+    pub width: usize,
+    pub height: usize,
+    /// 3DS `pixel_format` code (CTPK/BCH/CGFX); TPL image format (9 = CI8)
+    pub format: u32,
+    pub payload: Vec<u8>,
+    /// TPL only: palette entries (RGB5A3)
+    pub palette: Vec<u16>,
+}
+
+#[derive(Clone, Copy, Debug, PartialEq, Eq, Hash)]
+pub enum Container {
+    Ctpk,
+    Bch,
+    Cgfx,
+    Tpl,
+}
+
+impl Container {
+    pub const ALL: [Container; 4] = [Container::Ctpk, Container::Bch, Container::Cgfx, Container::Tpl];
+    pub fn name(self) -> &'static str {
+        match self {
+            Container::Ctpk => "ctpk",
+            Container::Bch => "bch",
+            Container::Cgfx => "cgfx",
+            Container::Tpl => "tpl",
+        }
+    }
+    pub fn from_name(n: &str) -> Option<Container> {
+        Container::ALL.iter().copied().find(|c| c.name() == n)
+    }
+    pub fn stores_names(self) -> bool {
+        !matches!(self, Container::Tpl)
+    }
+    pub fn checks_magic(self) -> bool {
+        !matches!(self, Container::Ctpk)
+    }
+}
+
+#[derive(Clone, Debug, PartialEq, Eq)]
+pub struct Layout {
+    /// index into the permutations of the container's movable sections
+    pub order: usize,
+    /// bytes of filler between sections (and, with `FLAG_INNER_GAPS`, between entries)
+    pub gap: usize,
+    pub flags: u32,
+    /// BCH backward-compatibility byte (selects the extended header)
+    pub compat: u8,
+}
+
+/// entries of the name section in reverse order
+pub const FLAG_REV_NAMES: u32 = 1;
+/// payloads in reverse order inside the payload section
+pub const FLAG_REV_PAYLOADS: u32 = 2;
+/// equal names stored once and referenced by all their users
+pub const FLAG_SHARE_NAMES: u32 = 4;
+/// filler between the entries inside sections too, and before the first payload
+pub const FLAG_INNER_GAPS: u32 = 8;
+/// per-texture records (BCH objects + command blocks, CGFX TXOBs, TPL headers) in reverse order
+pub const FLAG_REV_RECORDS: u32 = 16;
+/// BCH: pointer table after the objects; CGFX: the DICT entry refers to its own copy of the name
+pub const FLAG_ALT_TABLE: u32 = 32;
+
+impl Layout {
+    pub fn canonical() -> Layout {
+        Layout { order: 0, gap: 0, flags: 0, compat: 0x21 }
+    }
+    pub fn has(&self, f: u32) -> bool {
+        self.flags & f != 0
+    }
+    pub fn describe(&self) -> String {
+        format!("order={} gap={} flags={:#x} compat={:#x}", self.order, self.gap, self.flags, self.compat)
+    }
+}
+
+pub struct Built {
+    pub bytes: Vec<u8>,
+    /// [start, end) of each texture's payload, in texture order
+    pub payload_ranges: Vec<(usize, usize)>,
+    /// true when the file uses a self-relative offset that points backwards (CGFX only)
+    pub backward_offsets: bool,
+}
+
+impl Built {
+    /// Smallest prefix length that keeps every texture payload whole.
+    pub fn payload_end(&self) -> usize {
+        self.payload_ranges.iter().filter(|(s, e)| e > s).map(|(_, e)| *e).max().unwrap_or(0)
+    }
+}
+
+const FILL: u8 = 0xCD;
+
+struct W {
+    b: Vec<u8>,
+}
+
+impl W {
+    fn new() -> W {
+        W { b: Vec::new() }
+    }
+    fn pos(&self) -> usize {
+        self.b.len()
+    }
+    fn u8(&mut self, v: u8) {
+        self.b.push(v);
+    }
+    fn u16le(&mut self, v: u16) {
+        self.b.extend_from_slice(&v.to_le_bytes());
+    }
+    fn u32le(&mut self, v: u32) {
+        self.b.extend_from_slice(&v.to_le_bytes());
+    }
+    fn u16be(&mut self, v: u16) {
+        self.b.extend_from_slice(&v.to_be_bytes());
+    }
+    fn u32be(&mut self, v: u32) {
+        self.b.extend_from_slice(&v.to_be_bytes());
+    }
+    fn bytes(&mut self, v: &[u8]) {
+        self.b.extend_from_slice(v);
+    }
+    fn fill(&mut self, n: usize) {
+        self.b.extend(std::iter::repeat(FILL).take(n));
+    }
+    fn zeros(&mut self, n: usize) {
+        self.b.extend(std::iter::repeat(0).take(n));
+    }
+    fn put32le(&mut self, at: usize, v: u32) {
+        self.b[at..at + 4].copy_from_slice(&v.to_le_bytes());
+    }
+    fn put32be(&mut self, at: usize, v: u32) {
+        self.b[at..at + 4].copy_from_slice(&v.to_be_bytes());
+    }
+}
+
+fn order_of(n: usize, nsec: usize, rev: bool) -> Vec<usize> {
+    let _ = nsec;
+    if rev {
+        (0..n).rev().collect()
+    } else {
+        (0..n).collect()
+    }
+}
+
+/// Name storage: returns (blob, offset of each texture's name inside the blob).
+fn name_blob(names: &[Vec<u8>], l: &Layout) -> (Vec<u8>, Vec<usize>) {
+    let n = names.len();
+    let mut blob = Vec::new();
+    let mut off = vec![usize::MAX; n];
+    for i in order_of(n, 0, l.has(FLAG_REV_NAMES)) {
+        if l.has(FLAG_SHARE_NAMES) {
+            if let Some(j) = (0..n).find(|&j| off[j] != usize::MAX && names[j] == names[i]) {
+                off[i] = off[j];
+                continue;
+            }
+        }
+        if l.has(FLAG_INNER_GAPS) && !blob.is_empty() {
+            // filler between names must not contain NUL-less runs that change a name: FILL + NUL
+            blob.extend(std::iter::repeat(FILL).take(l.gap.max(1) - 1));
+            blob.push(0);
+        }
+        off[i] = blob.len();
+        blob.extend_from_slice(&names[i]);
+        blob.push(0);
+    }
+    (blob, off)
+}
+
+/// Payload storage: returns (blob, offset of each payload inside the blob).
+fn payload_blob(texs: &[TexSpec], l: &Layout) -> (Vec<u8>, Vec<usize>) {
+    let n = texs.len();
+    let mut blob = Vec::new();
+    let mut off = vec![0usize; n];
+    if l.has(FLAG_INNER_GAPS) {
+        blob.extend(std::iter::repeat(FILL).take(16));
+    }
+    for i in order_of(n, 0, l.has(FLAG_REV_PAYLOADS)) {
+        off[i] = blob.len();
+        blob.extend_from_slice(&texs[i].payload);
+        if l.has(FLAG_INNER_GAPS) {
+            blob.extend(std::iter::repeat(FILL).take(16));
+        }
+    }
+    (blob, off)
+}
+
+// ---------------------------------------------------------------------------------------
+// CTPK
+
+pub fn ctpk_layouts() -> Vec<Layout> {
+    let mut v = Vec::new();
+    for order in 0..6 {
+        for gap in [0usize, 16] {
+            for flags in 0..16u32 {
+                v.push(Layout { order, gap, flags, compat: 0 });
+            }
+        }
+    }
+    v
+}
+
+/// Sections: header `00..20`, texture info table `20..` (both fixed by the format), then in
+/// the layout's order: names, payload section, miscellaneous (bitmap sizes, hashes, short info).
+pub fn build_ctpk(texs: &[TexSpec], l: &Layout) -> Built {
+    let n = texs.len();
+    let names: Vec<Vec<u8>> = texs.iter().map(|t| sjis::encode(&t.name).expect("name must be Shift-JIS encodable")).collect();
+    let (nblob, noff) = name_blob(&names, l);
+    let (pblob, poff) = payload_blob(texs, l);
+    let mut w = W::new();
+    w.bytes(b"CTPK");
+    w.u16le(1);
+    w.u16le(n as u16);
+    let hdr_section_base = w.pos();
+    w.u32le(0); // payload section base
+    w.u32le(pblob.len() as u32);
+    let hdr_hash = w.pos();
+    w.u32le(0);
+    let hdr_short = w.pos();
+    w.u32le(0);
+    w.zeros(8);
+    let info = w.pos();
+    for t in texs {
+        w.u32le(0); // name pointer
+        w.u32le(t.payload.len() as u32);
+        w.u32le(0); // payload offset
+        w.u32le(t.format);
+        w.u16le(t.width as u16);
+        w.u16le(t.height as u16);
+        w.u8(1); // mip levels
+        w.u8(2); // type: 2D
+        w.u16le(0); // cube direction
+        w.u32le(0); // bitmap size pointer
+        w.u32le(0x5F00_0000); // time stamp
+    }
+    let perm = &permutations(3)[l.order % 6];
+    let mut ranges = vec![(0usize, 0usize); n];
+    for &sec in perm {
+        w.fill(l.gap);
+        match sec {
+            0 => {
+                let base = w.pos();
+                w.bytes(&nblob);
+                for i in 0..n {
+                    w.put32le(info + i * 0x20, (base + noff[i]) as u32);
+                }
+            }
+            1 => {
+                let base = w.pos();
+                w.bytes(&pblob);
+                w.put32le(hdr_section_base, base as u32);
+                for i in 0..n {
+                    w.put32le(info + i * 0x20 + 8, poff[i] as u32);
+                    ranges[i] = (base + poff[i], base + poff[i] + texs[i].payload.len());
+                }
+            }
+            _ => {
+                // bitmap size table (one u32 per texture, relative pointer / 4 in the info entry)
+                let bm = w.pos();
+                for (i, t) in texs.iter().enumerate() {
+                    w.put32le(info + i * 0x20 + 0x18, ((bm - info) / 4 + i) as u32);
+                    w.u32le(t.payload.len() as u32);
+                }
+                w.put32le(hdr_hash, w.pos() as u32);
+                for i in 0..n {
+                    w.u32le(0x1234_5678 ^ i as u32);
+                    w.u32le(i as u32);
+                }
+                w.put32le(hdr_short, w.pos() as u32);
+                for t in texs {
+                    w.u8(t.format as u8);
+                    w.u8(1);
+                    w.u8(0);
+                    w.u8(0);
+                }
+            }
+        }
+    }
+    Built { bytes: w.b, payload_ranges: ranges, backward_offsets: false }
+}
+
+// ---------------------------------------------------------------------------------------
+// BCH
+
+pub const BCH_COMPAT: [u8; 4] = [0, 7, 0x21, 0x23];
+pub const BCH_FLAG_SETS: [u32; 4] = [0, 0x3F, 0x2A, 0x15];
+
+/// `full`: every flag combination (64) instead of the four covering sets.
+pub fn bch_layouts(full: bool) -> Vec<Layout> {
+    let mut v = Vec::new();
+    let flag_sets: Vec<u32> = if full { (0..64).collect() } else { BCH_FLAG_SETS.to_vec() };
+    for order in 0..24 {
+        for gap in [0usize, 16] {
+            for &flags in &flag_sets {
+                for compat in BCH_COMPAT {
+                    v.push(Layout { order, gap, flags, compat });
+                }
+            }
+        }
+    }
+    v
+}
+
+/// Sections after the header, in the layout's order: contents, strings, commands, raw data;
+/// then (extended header only) an empty raw-ext section, and the relocation table.
+pub fn build_bch(texs: &[TexSpec], l: &Layout) -> Built {
+    let n = texs.len();
+    let ext = l.compat > 20;
+    let names: Vec<Vec<u8>> = texs.iter().map(|t| t.name.as_bytes().to_vec()).collect();
+    let (mut sblob, mut soff) = name_blob(&names, l);
+    // a leading entry so that name offset 0 is not the only value ever used
+    if l.has(FLAG_INNER_GAPS) {
+        let mut b = b"bch_strings\0".to_vec();
+        for o in soff.iter_mut() {
+            *o += b.len();
+        }
+        b.extend_from_slice(&sblob);
+        sblob = b;
+    }
+    let (rblob, roff) = payload_blob(texs, l);
+    let inner = if l.has(FLAG_INNER_GAPS) { 16 } else { 0 };
+
+    // commands section: one block per texture
+    let mut mblob = W::new();
+    let mut moff = vec![0usize; n];
+    mblob.fill(inner);
+    for i in order_of(n, 0, l.has(FLAG_REV_RECORDS)) {
+        moff[i] = mblob.pos();
+        let t = &texs[i];
+        mblob.u16le(t.height as u16);
+        mblob.u16le(t.width as u16);
+        mblob.u32le(0x000F_0082); // PICA command word (texture size register)
+        mblob.u32le(0);
+        mblob.u32le(0x000F_0085);
+        mblob.u32le(roff[i] as u32);
+        mblob.u32le(0x000F_0085);
+        mblob.u32le(t.format);
+        mblob.u32le(0x000F_008E);
+        mblob.fill(inner);
+    }
+    let mblob = mblob.b;
+
+    // contents section: content header (0x24: texture table offset, count), pointer table, objects
+    let mut c = W::new();
+    c.zeros(0x24);
+    let tbl_field = c.pos();
+    c.u32le(0);
+    c.u32le(n as u32);
+    c.zeros(0x10); // further content tables (unused here)
+    let mut ooff = vec![0usize; n];
+    let write_objects = |c: &mut W, ooff: &mut Vec<usize>| {
+        c.fill(inner);
+        for i in order_of(n, 0, l.has(FLAG_REV_RECORDS)) {
+            ooff[i] = c.pos();
+            c.u32le(moff[i] as u32); // 00 texture unit 0 commands
+            c.u32le(moff[i] as u32); // 04 unit 1
+            c.u32le(moff[i] as u32); // 08 unit 2
+            c.u32le(8); // 0C command word count
+            c.u32le(8);
+            c.u32le(8);
+            c.u32le(0); // 18
+            c.u32le(soff[i] as u32); // 1C name
+            c.fill(inner);
+        }
+    };
+    let tbl;
+    if l.has(FLAG_ALT_TABLE) {
+        write_objects(&mut c, &mut ooff);
+        tbl = c.pos();
+        for i in 0..n {
+            c.u32le(ooff[i] as u32);
+        }
+    } else {
+        c.fill(inner);
+        tbl = c.pos();
+        for _ in 0..n {
+            c.u32le(0);
+        }
+        write_objects(&mut c, &mut ooff);
+        for i in 0..n {
+            c.put32le(tbl + 4 * i, ooff[i] as u32);
+        }
+    }
+    c.put32le(tbl_field, tbl as u32);
+    let cblob = c.b;
+
+    let mut w = W::new();
+    w.bytes(b"BCH\0");
+    w.u8(l.compat);
+    w.u8(l.compat);
+    w.u16le(0xA7C4);
+    let addr_at = w.pos();
+    let nwords = if ext { 6 } else { 5 };
+    w.zeros(4 * nwords); // addresses
+    let len_at = w.pos();
+    w.zeros(4 * nwords); // lengths
+    w.u32le(0); // uninitialised data length
+    w.u32le(0); // uninitialised commands length
+    // word index of each section in the address/length groups
+    // contents 0, strings 1, commands 2, raw 3, [raw ext 4], relocation 4|5
+    let blobs: [&[u8]; 4] = [&cblob, &sblob, &mblob, &rblob];
+    let perm = &permutations(4)[l.order % 24];
+    let mut ranges = vec![(0usize, 0usize); n];
+    for &sec in perm {
+        w.fill(l.gap);
+        let base = w.pos();
+        w.bytes(blobs[sec]);
+        w.put32le(addr_at + 4 * sec, base as u32);
+        w.put32le(len_at + 4 * sec, blobs[sec].len() as u32);
+        if sec == 3 {
+            for i in 0..n {
+                ranges[i] = (base + roff[i], base + roff[i] + texs[i].payload.len());
+            }
+        }
+    }
+    w.fill(l.gap);
+    if ext {
+        let p = w.pos() as u32;
+        w.put32le(addr_at + 16, p);
+        w.put32le(len_at + 16, 0);
+    }
+    let reloc = w.pos();
+    for i in 0..n {
+        w.u32le(0x0200_0000 | (moff[i] as u32 / 4 + 4));
+    }
+    let ri = if ext { 5 } else { 4 };
+    w.put32le(addr_at + 4 * ri, reloc as u32);
+    w.put32le(len_at + 4 * ri, (4 * n) as u32);
+    Built { bytes: w.b, payload_ranges: ranges, backward_offsets: false }
+}
+
+// ---------------------------------------------------------------------------------------
+// CGFX
+
+/// Orders of (DICT, TXOBs, names, payloads) in which every self-relative offset points
+/// forward: DICT before TXOBs before names and payloads.
+pub fn cgfx_forward_orders() -> Vec<usize> {
+    permutations(4)
+        .iter()
+        .enumerate()
+        .filter(|(_, p)| {
+            let pos = |s: usize| p.iter().position(|&x| x == s).unwrap();
+            pos(0) < pos(1) && pos(1) < pos(2) && pos(1) < pos(3)
+        })
+        .map(|(i, _)| i)
+        .collect()
+}
+
+pub fn cgfx_layouts(forward: bool) -> Vec<Layout> {
+    let fwd = cgfx_forward_orders();
+    let mut v = Vec::new();
+    for order in 0..24 {
+        if fwd.contains(&order) != forward {
+            continue;
+        }
+        for gap in [0usize, 16] {
+            for flags in 0..64u32 {
+                v.push(Layout { order, gap, flags, compat: 0 });
+            }
+        }
+    }
+    v
+}
+
+const TXOB_LEN: usize = 0x58;
+
+/// Header `00..14`, DATA block `14..9C` (16 dictionary references, fixed by the format), then
+/// in the layout's order: texture DICT, TXOB records, names, payloads. All references are
+/// self-relative (value + position of the field); a target placed before the field that refers
+/// to it is encoded in two's complement and reported through `backward_offsets`.
+pub fn build_cgfx(texs: &[TexSpec], l: &Layout) -> Built {
+    let n = texs.len();
+    // names: texture i's TXOB name, and (FLAG_ALT_TABLE) a separate copy for the DICT entry
+    let mut names: Vec<Vec<u8>> = texs.iter().map(|t| t.name.as_bytes().to_vec()).collect();
+    let dict_copy = l.has(FLAG_ALT_TABLE);
+    if dict_copy {
+        for i in 0..n {
+            names.push(texs[i].name.as_bytes().to_vec());
+        }
+    }
+    // sharing would merge the copies again; with separate copies only share among TXOB names
+    let (nblob, noff) = if dict_copy && l.has(FLAG_SHARE_NAMES) {
+        let (mut b1, o1) = name_blob(&names[..n], l);
+        let (b2, o2) = name_blob(&names[n..], l);
+        let shift = b1.len();
+        b1.extend_from_slice(&b2);
+        let mut o = o1;
+        o.extend(o2.into_iter().map(|x| x + shift));
+        (b1, o)
+    } else {
+        name_blob(&names, l)
+    };
+    let (pblob, poff) = payload_blob(texs, l);
+    let inner = if l.has(FLAG_INNER_GAPS) { 16 } else { 0 };
+    let dict_len = 0x1C + 0x10 * n;
+    let rec_order = order_of(n, 0, l.has(FLAG_REV_RECORDS));
+    let mut txob_rel = vec![0usize; n];
+    let mut tx_len = inner;
+    for &i in &rec_order {
+        txob_rel[i] = tx_len;
+        tx_len += TXOB_LEN + inner;
+    }
+
+    let mut w = W::new();
+    w.bytes(b"CGFX");
+    w.u16le(0xFEFF);
+    w.u16le(0x14);
+    w.u32le(0x0500_0000);
+    let size_at = w.pos();
+    w.u32le(0);
+    w.u32le(1); // blocks
+    debug_assert_eq!(w.pos(), 0x14);
+    w.bytes(b"DATA");
+    let data_size_at = w.pos();
+    w.u32le(0);
+    let data_entries = w.pos();
+    w.zeros(16 * 8);
+    w.put32le(data_entries + 8, n as u32);
+
+    let perm = &permutations(4)[l.order % 24];
+    // first pass: section bases
+    let lens = [dict_len, tx_len, nblob.len(), pblob.len()];
+    let mut base = [0usize; 4];
+    let mut p = w.pos();
+    for &sec in perm {
+        p += l.gap;
+        base[sec] = p;
+        p += lens[sec];
+    }
+    let total = p;
+    let mut backward = false;
+    let mut rel = |field_at: usize, target: usize| -> u32 {
+        if target < field_at {
+            backward = true;
+        }
+        (target as i64 - field_at as i64) as u32
+    };
+    let dict_ref = rel(data_entries + 12, base[0]);
+    w.put32le(data_entries + 12, dict_ref);
+    let mut ranges = vec![(0usize, 0usize); n];
+    for &sec in perm {
+        w.fill(l.gap);
+        debug_assert_eq!(w.pos(), base[sec]);
+        match sec {
+            0 => {
+                w.bytes(b"DICT");
+                w.u32le(dict_len as u32);
+                w.u32le(n as u32);
+                // root node
+                w.u32le(0xFFFF_FFFF);
+                w.u16le(if n > 0 { 1 } else { 0 });
+                w.u16le(0);
+                w.u32le(0);
+                w.u32le(0);
+                for i in 0..n {
+                    w.u32le(i as u32); // reference bit
+                    w.u16le(((i + 1) % (n + 1)) as u16);
+                    w.u16le(i as u16);
+                    let at = w.pos();
+                    let name_target = base[2] + noff[if dict_copy { n + i } else { i }];
+                    w.u32le(rel(at, name_target));
+                    let at = w.pos();
+                    w.u32le(rel(at, base[1] + txob_rel[i]));
+                }
+            }
+            1 => {
+                w.fill(inner);
+                for &i in &rec_order {
+                    let t = &texs[i];
+                    let s = w.pos();
+                    debug_assert_eq!(s, base[1] + txob_rel[i]);
+                    w.u32le(0x2000_0011); // 00 type flags (image texture)
+                    w.bytes(b"TXOB"); // 04
+                    w.u32le(0x0500_0000); // 08 revision
+                    w.u32le(rel(s + 0x0C, base[2] + noff[i])); // 0C name
+                    w.u32le(0); // 10 user data count
+                    w.u32le(0); // 14 user data offset
+                    w.u32le(t.height as u32); // 18
+                    w.u32le(t.width as u32); // 1C
+                    w.u32le(0x6752); // 20 GL format
+                    w.u32le(0x1401); // 24 GL type
+                    w.u32le(1); // 28 mip levels
+                    w.u32le(0); // 2C texture object
+                    w.u32le(0); // 30 location flags
+                    w.u32le(t.format); // 34
+                    w.u32le(0); // 38
+                    w.u32le(t.height as u32); // 3C image: height
+                    w.u32le(t.width as u32); // 40 image: width
+                    w.u32le(t.payload.len() as u32); // 44 image: byte size
+                    w.u32le(rel(s + 0x48, base[3] + poff[i])); // 48 image: data
+                    w.u32le(0); // 4C dynamic allocator
+                    w.u32le(t.format_bits()); // 50 bits per pixel
+                    w.u32le(0); // 54
+                    debug_assert_eq!(w.pos() - s, TXOB_LEN);
+                    w.fill(inner);
+                }
+            }
+            2 => w.bytes(&nblob),
+            _ => {
+                w.bytes(&pblob);
+                for i in 0..n {
+                    ranges[i] = (base[3] + poff[i], base[3] + poff[i] + texs[i].payload.len());
+                }
+            }
+        }
+    }
+    debug_assert_eq!(w.pos(), total);
+    let len = w.pos() as u32;
+    w.put32le(size_at, len);
+    w.put32le(data_size_at, len - 0x14);
+    Built { bytes: w.b, payload_ranges: ranges, backward_offsets: backward }
+}
+
+impl TexSpec {
+    fn format_bits(&self) -> u32 {
+        let px = (self.width * self.height).max(1);
+        (self.payload.len() * 8 / px) as u32
+    }
+}
+
+// ---------------------------------------------------------------------------------------
+// TPL
+
+/// `orders`: which of the 120 section permutations to use.
+pub fn tpl_layouts(orders: &[usize]) -> Vec<Layout> {
+    let mut v = Vec::new();
+    for &order in orders {
+        for gap in [0usize, 16] {
+            for flags in [0u32, FLAG_REV_RECORDS, FLAG_REV_PAYLOADS, FLAG_REV_RECORDS | FLAG_REV_PAYLOADS | FLAG_INNER_GAPS] {
+                v.push(Layout { order, gap, flags, compat: 0 });
+            }
+        }
+    }
+    v
+}
+
+pub const TPL_CI8: u32 = 9;
+pub const TPL_PAL_RGB5A3: u32 = 2;
+
+/// Header `00..0C`, then in the layout's order: image table, image headers, palette headers,
+/// image data, palette data. Every pointer is absolute; everything big-endian.
+pub fn build_tpl(texs: &[TexSpec], l: &Layout) -> Built {
+    let n = texs.len();
+    let inner = if l.has(FLAG_INNER_GAPS) { 16 } else { 0 };
+    let mut w = W::new();
+    w.u32be(0x0020_AF30);
+    w.u32be(n as u32);
+    let table_ptr_at = w.pos();
+    w.u32be(0);
+    let perm = &permutations(5)[l.order % 120];
+    let rec = order_of(n, 0, l.has(FLAG_REV_RECORDS));
+    let dat = order_of(n, 0, l.has(FLAG_REV_PAYLOADS));
+    // fix-ups: (field position, which kind, texture)
+    let mut table_at = 0usize;
+    let mut img_hdr = vec![0usize; n];
+    let mut pal_hdr = vec![0usize; n];
+    let mut img_dat = vec![0usize; n];
+    let mut pal_dat = vec![0usize; n];
+    for &sec in perm {
+        w.fill(l.gap);
+        match sec {
+            0 => {
+                table_at = w.pos();
+                w.zeros(8 * n);
+            }
+            1 => {
+                w.fill(inner);
+                for &i in &rec {
+                    let t = &texs[i];
+                    img_hdr[i] = w.pos();
+                    w.u16be(t.height as u16);
+                    w.u16be(t.width as u16);
+                    w.u32be(t.format);
+                    w.u32be(0); // data pointer
+                    w.u32be(0); // wrap s
+                    w.u32be(0); // wrap t
+                    w.u32be(1); // min filter
+                    w.u32be(1); // mag filter
+                    w.u32be(0); // LOD bias (0.0)
+                    w.u8(0);
+                    w.u8(0);
+                    w.u8(0);
+                    w.u8(0);
+                    w.fill(inner);
+                }
+            }
+            2 => {
+                w.fill(inner);
+                for &i in &rec {
+                    let t = &texs[i];
+                    pal_hdr[i] = w.pos();
+                    w.u16be(t.palette.len() as u16);
+                    w.u8(0);
+                    w.u8(0);
+                    w.u32be(TPL_PAL_RGB5A3);
+                    w.u32be(0); // data pointer
+                    w.fill(inner);
+                }
+            }
+            3 => {
+                w.fill(inner);
+                for &i in &dat {
+                    img_dat[i] = w.pos();
+                    w.bytes(&texs[i].payload);
+                    w.fill(inner);
+                }
+            }
+            _ => {
+                w.fill(inner);
+                for &i in &dat {
+                    pal_dat[i] = w.pos();
+                    for &c in &texs[i].palette {
+                        w.u16be(c);
+                    }
+                    w.fill(inner);
+                }
+            }
+        }
+    }
+    w.put32be(table_ptr_at, table_at as u32);
+    let mut ranges = vec![(0usize, 0usize); n];
+    for i in 0..n {
+        w.put32be(table_at + 8 * i, img_hdr[i] as u32);
+        w.put32be(table_at + 8 * i + 4, pal_hdr[i] as u32);
+        w.put32be(img_hdr[i] + 8, img_dat[i] as u32);
+        w.put32be(pal_hdr[i] + 8, pal_dat[i] as u32);
+        ranges[i] = (img_dat[i], img_dat[i] + texs[i].payload.len());
+    }
+    Built { bytes: w.b, payload_ranges: ranges, backward_offsets: false }
+}
+
+pub fn build(c: Container, texs: &[TexSpec], l: &Layout) -> Built {
+    match c {
+        Container::Ctpk => build_ctpk(texs, l),
+        Container::Bch => build_bch(texs, l),
+        Container::Cgfx => build_cgfx(texs, l),
+        Container::Tpl => build_tpl(texs, l),
+    }
+}
+
+#[cfg(test)]
+mod tests {
+    use super::*;
+
+    #[test]
+    fn cgfx_has_two_forward_orders() {
+        assert_eq!(cgfx_forward_orders().len(), 2);
+    }
+
+    #[test]
+    fn payloads_are_where_the_ranges_say() {
+        let texs: Vec<TexSpec> = (0..3)
+            .map(|i| TexSpec { name: format!("n{}", i % 2), width: 8, height: 8, format: 7, payload: vec![i as u8 + 1; 64], palette: vec![0x8000; 4] })
+            .collect();
+        for c in Container::ALL {
+            let layouts = match c {
+                Container::Ctpk => ctpk_layouts(),
+                Container::Bch => bch_layouts(false),
+                Container::Cgfx => {
+                    let mut v = cgfx_layouts(true);
+                    v.extend(cgfx_layouts(false));
+                    v
+                }
+                Container::Tpl => tpl_layouts(&(0..120).collect::<Vec<_>>()),
+            };
+            for l in &layouts {
+                let mut t = texs.clone();
+                if c == Container::Tpl {
+                    for x in t.iter_mut() {
+                        x.format = TPL_CI8;
+                        x.payload = vec![x.payload[0]; 64];
+                    }
+                }
+                let b = build(c, &t, l);
+                for (i, (s, e)) in b.payload_ranges.iter().enumerate() {
+                    assert_eq!(&b.bytes[*s..*e], &t[i].payload[..], "{:?} {:?}", c, l);
+                }
+                if c == Container::Cgfx {
+                    assert_eq!(b.backward_offsets, !cgfx_forward_orders().contains(&l.order));
+                }
+            }
+        }
+    }
+}
